@@ -1,3 +1,58 @@
-From DI Require Import PyStr Unsign.
-Theorem C16_placeholder : True. Proof. exact I. Qed.
-Print Assumptions C16_placeholder.
+(* C16 - PGP clear-sign removal returns the signed body or the input, and quickly
+   (partial: the functional clauses are theorems about the scanner model of the
+   clear-sign pattern; the running time of the regex engine is measured on every
+   run, not proved). *)
+From Coq Require Import String.
+From Coq Require Import Arith NArith List Bool Lia.
+From DI Require Import Result PyStr Unsign UnsignFacts.
+Import ListNotations.
+Open Scope N_scope.
+
+(* for every text the result is a string that is a contiguous part of the input (never None) *)
+Theorem C16_contiguous : forall t, exists a b, t = a ++ remove_signature t ++ b.
+Proof. exact remove_signature_contiguous. Qed.
+Print Assumptions C16_contiguous.
+
+(* without a clear-sign envelope the input is returned unchanged *)
+Theorem C16_no_envelope_identity : forall t, is_signed t = false -> remove_signature t = t.
+Proof. exact no_envelope_identity. Qed.
+Print Assumptions C16_no_envelope_identity.
+
+(* an envelope whose signed-message part cannot be read returns the input *)
+Theorem C16_unreadable_is_input : forall t, pgp_search t = Some None -> remove_signature t = t.
+Proof. exact armor_only_identity. Qed.
+Print Assumptions C16_unreadable_is_input.
+
+(* a well-formed message - armor line, Hash header, empty line, the lines of the signed text, a
+   signature block that matches and holds no inner block - yields exactly the signed text: its
+   lines, without the line end before the signature block (a CR of a CRLF end remains) *)
+Theorem C16_wellformed_with_hash : forall l0 h e pre l sig,
+  is_begin_signed l0 = true -> is_hash_line h = true -> is_eol e = true ->
+  sig <> [] -> armor_match sig = true -> no_inner_block sig -> ends_lf l = true ->
+  pgp_search_lines (l0 :: h :: e :: pre ++ l :: sig) = Some (Some (concat pre ++ chop_lf l)).
+Proof. exact wellformed_with_hash. Qed.
+Print Assumptions C16_wellformed_with_hash.
+
+Theorem C16_wellformed_without_hash : forall l0 e pre l sig,
+  is_begin_signed l0 = true -> is_eol e = true ->
+  sig <> [] -> armor_match sig = true -> no_inner_block sig -> ends_lf l = true ->
+  pgp_search_lines (l0 :: e :: pre ++ l :: sig) = Some (Some (concat pre ++ chop_lf l)).
+Proof. exact wellformed_without_hash. Qed.
+Print Assumptions C16_wellformed_without_hash.
+
+(* the hypotheses are satisfiable: a concrete signature block *)
+Definition sig_example : list str :=
+  [lit "-----BEGIN PGP SIGNATURE-----" ++ [10]; lit "Version: GnuPG v1" ++ [10]; [10];
+   lit "iQFHBAEBCgAxFiEE" ++ [10]; lit "=BVVn" ++ [10]; lit "-----END PGP SIGNATURE-----" ++ [10]].
+
+Example C16_signature_block_ok : armor_match sig_example = true /\ no_inner_block sig_example.
+Proof.
+  split; [vm_compute; reflexivity|]. intros k Hk. cbn [length sig_example] in Hk.
+  do 6 (destruct k as [|k]; [try lia; vm_compute; reflexivity|]). lia.
+Qed.
+
+Example C16_whole_message :
+  remove_signature (lit "-----BEGIN PGP SIGNED MESSAGE-----" ++ [10] ++ lit "Hash: SHA512" ++ [10; 10] ++
+                    lit "Format: 3.0 (quilt)" ++ [10] ++ lit "- -----dash escaped" ++ [10] ++ concat sig_example)
+  = lit "Format: 3.0 (quilt)" ++ [10] ++ lit "- -----dash escaped".
+Proof. vm_compute. reflexivity. Qed.
